@@ -1,49 +1,28 @@
 """C13 Element-wise mapping operations follow their positional definitions."""
 from common import TRUSTED, ASSUME, configs
+import re
 import lag
 import dtree
 import algebra
+import nullrules as N
 from facts import walk, peel, src, loc, callee_is, _pat_binds, strip_generics
 
 
 def fn_env(fn):
-    """Canonical names for the immutable lets of the function body (outside closures)."""
-    env = {}
-    def rec(e):
-        if e.get('k') == 'Closure':
-            return
-        if e.get('k') == 'Block':
-            for s in e.get('stmts', []):
-                if s['k'] == 'Let' and 'init' in s:
-                    init = peel(s['init'])
-                    if s['pat'].get('k') == 'Binding' and not s['pat'].get('mut'):
-                        env[s['pat']['local']] = dtree.canon(init, env)
-                    elif s['pat'].get('k') == 'Tuple' and init.get('k') == 'Tup':
-                        for p_, v_ in zip(s['pat']['ch'], init['ch']):
-                            if p_.get('k') == 'Binding':
-                                env[p_['local']] = dtree.canon(v_, env)
-        from facts import children
-        for c in children(e):
-            rec(c)
-    rec(fn.hir)
-    return env
+    """parameter names (lets are bound by dtree.env_at on the way to each closure)"""
+    return N.self_env(fn)
 
 
 def closure_tables(fn):
+    """(closure node, decision table, guards) of every closure of fn; parameters are a0, a1 ..,
+    captured state is named as at the definition site (kept lets positional)"""
     env0 = fn_env(fn)
     out = []
     for e in walk(fn.hir):
         if e.get('k') == 'Closure':
-            env = dict(env0)
-            for i, p in enumerate(e['params']):
-                bs = _pat_binds(p)
-                if p.get('k') == 'Binding':
-                    env[bs[0]['local']] = 'v' if i == 0 else bs[0]['name']
-                else:
-                    for j, b in enumerate(bs):
-                        env[b['local']] = 'ab'[j] if j < 2 else b['name']
-            t = dtree.table(e['ch'][0], env)
-            t = {(frozenset(c.replace('<=', '<') for c in cs), leaf, ef) for cs, leaf, ef in t}
+            t = dtree.closure_table(fn.hir, e, env0)
+            # `<=` folded to `<`: at the bound itself both choices give the same value
+            t = dtree.Table((frozenset(c.replace('<=', '<') for c in cs), leaf, ef) for cs, leaf, ef in t)
             out.append((e, t))
     return out
 
@@ -52,17 +31,17 @@ def T(*rows):
     return dtree.Table((frozenset(c), leaf, tuple(ef)) for c, leaf, ef in rows)
 
 
-FILL = T((['mask_func(v)'], 'value', []), (['!mask_func(v)'], 'v', []))
-FFILL = T((['mask_func(v)', 'VALID(last_valid)'], 'last_valid', []),
-          (['mask_func(v)', '!VALID(last_valid)', 'VALID(value)'], 'value', []),
-          (['mask_func(v)', '!VALID(last_valid)', '!VALID(value)'], 'NULL', []),
-          (['!mask_func(v)'], 'v', ['last_valid = Some(v)']))
-CLIP_BOTH = T((['VALID(v)', '(v < lower)'], 'lower', []),
-              (['VALID(v)', '(lower < v)', '(upper < v)'], 'upper', []),   # `<=` folded to `<` (equal at the bound)
-              (['VALID(v)', '(lower < v)', '(v < upper)'], 'v', []),
-              (['!VALID(v)'], 'v', []))
-CLIP_LO = T((['VALID(v)', '(v < lower)'], 'lower', []), (['VALID(v)', '(lower < v)'], 'v', []), (['!VALID(v)'], 'v', []))
-CLIP_HI = T((['VALID(v)', '(upper < v)'], 'upper', []), (['VALID(v)', '(v < upper)'], 'v', []), (['!VALID(v)'], 'v', []))
+FILL = T((['mask_func(a0)'], 'value', []), (['!mask_func(a0)'], 'a0', []))
+FFILL = T((['mask_func(a0)', 'VALID(last_valid)'], 'last_valid', []),
+          (['mask_func(a0)', '!VALID(last_valid)', 'VALID(value)'], 'value', []),
+          (['mask_func(a0)', '!VALID(last_valid)', '!VALID(value)'], 'NULL', []),
+          (['!mask_func(a0)'], 'a0', ['last_valid = Some(a0)']))
+CLIP_BOTH = T((['VALID(a0)', '(a0 < lower)'], 'lower', []),
+              (['VALID(a0)', '(lower < a0)', '(upper < a0)'], 'upper', []),   # `<=` folded to `<` (equal at the bound)
+              (['VALID(a0)', '(lower < a0)', '(a0 < upper)'], 'a0', []),
+              (['!VALID(a0)'], 'a0', []))
+CLIP_LO = T((['VALID(a0)', '(a0 < lower)'], 'lower', []), (['VALID(a0)', '(lower < a0)'], 'a0', []), (['!VALID(a0)'], 'a0', []))
+CLIP_HI = T((['VALID(a0)', '(upper < a0)'], 'upper', []), (['VALID(a0)', '(a0 < upper)'], 'a0', []), (['!VALID(a0)'], 'a0', []))
 
 
 def check(run):
@@ -97,14 +76,16 @@ def check(run):
 
 
 def elem_fns(run, F):
+    from algebra import parse_poly
     fn = F.one('MapValidVec::vdiff')
     n = 0
     for e, t in closure_tables(fn):
         if len(e['params']) == 1 and e['params'][0].get('k') == 'Tuple':
             n += 1
-            ok = t == T(([], '(b - a)', []))
+            # (lagged a0, current a1) -> current - lagged
+            ok = t == T(([], '(a1 - a0)', []))
             run.ob('SEQ.elemfn', fn, 'difference closure #%d' % n, ok, loc(e),
-                   'closure over (lagged a, current b): %s' % dtree.show(t))
+                   'closure over (lagged a0, current a1): %s' % dtree.show(t))
     run.floor('SEQ.elemfn', 'vdiff pair closures', n, 2)
     fn = F.one('MapValidVec::vpct_change')
     n = 0
@@ -112,61 +93,75 @@ def elem_fns(run, F):
         if len(e['params']) == 1 and e['params'][0].get('k') == 'Tuple':
             n += 1
             nonnull = [(cs, leaf) for cs, leaf, ef in t if leaf != 'NULL']
-            ok = len(nonnull) == 1 and nonnull[0][1] == '((b / a) - 1.)' and \
-                {'VALID(a)', 'VALID(b)'} <= set(nonnull[0][0]) and \
-                any(c in ('(0. != a)', '(0. != a)', '(a != 0.)') for c in nonnull[0][0])
+            ok = len(nonnull) == 1 and parse_poly(nonnull[0][1]) == parse_poly('((a1 / a0) - 1.)') and \
+                {'VALID(a0)', 'VALID(a1)'} <= set(nonnull[0][0]) and \
+                any(c in ('(0. != a0)', '(a0 != 0.)') for c in nonnull[0][0])
             run.ob('SEQ.elemfn', fn, 'percentage-change closure #%d' % n, ok, loc(e),
                    'non-null leaf: %s' % [(sorted(c), l) for c, l in nonnull])
     run.floor('SEQ.elemfn', 'vpct_change pair closures', n, 2)
 
 
 def maps(run, F):
-    specs = {'MapValidBasic::fill_mask': [FILL], 'MapValidBasic::ffill_mask': [FFILL],
-             'MapValidBasic::bfill_mask': [FFILL],
-             'MapValidBasic::vclip': [CLIP_BOTH, CLIP_LO, CLIP_HI]}
-    for name, want in specs.items():
+    env_of = fn_env
+    for name, want in (('MapValidBasic::fill_mask', FILL), ('MapValidBasic::ffill_mask', FFILL),
+                       ('MapValidBasic::bfill_mask', FFILL)):
         fn = F.one(name)
         got = closure_tables(fn)
-        run.ob('MAP.table', fn, 'closure count', len(got) == len(want), fn.loc(),
-               '%d element closure(s), expected %d' % (len(got), len(want)))
-        for i, ((e, t), w) in enumerate(zip(got, want)):
-            run.ob('MAP.table', fn, 'decision table #%d' % (i + 1), t == w, loc(e),
-                   'got %s' % dtree.show(t) if t != w else 'matches: %s' % dtree.show(t)[:2])
-            if name in ('MapValidBasic::fill_mask', 'MapValidBasic::vclip'):
-                caps = {c['local'] for c in e.get('captures', [])}
-                muts = [src(x) for x in walk(e['ch'][0]) if x.get('k') in ('Assign', 'AssignOp')
-                        and peel(x['ch'][0]).get('local') in caps]
-                mb = [c['place'] for c in e.get('captures', []) if 'Mut' in c.get('by', '')]
-                run.ob('MAP.stateless', fn, 'closure #%d state' % (i + 1), not muts and not mb,
-                       loc(e), 'mutated captures: %s' % (muts + mb or 'none'))
+        run.ob('MAP.table', fn, 'closure count', len(got) == 1, fn.loc(), '%d element closure(s), expected 1' % len(got))
+        for i, (e, t) in enumerate(got[:1]):
+            run.ob('MAP.table', fn, 'decision table #1', t == want, loc(e),
+                   'got %s' % dtree.show(t) if t != want else 'matches: %s' % dtree.show(t)[:2])
+            if name.endswith('fill_mask') and 'ffill' not in name and 'bfill' not in name:
+                _stateless(run, fn, e, 1)
+    # clip: one closure per combination of present bounds, chosen by the dispatch on them
+    fn = F.one('MapValidBasic::vclip')
+    got = closure_tables(fn)
+    run.ob('MAP.table', fn, 'closure count', len(got) == 3, fn.loc(), '%d element closure(s), expected 3' % len(got))
+    seen = set()
+    for i, (e, t) in enumerate(got):
+        g = dtree.guards_at(fn.hir, e, env_of(fn))
+        gc = set(g[0]) if g else set()
+        which = ('lower' if 'VALID(lower)' in gc else '') + ('upper' if 'VALID(upper)' in gc else '')
+        want = {'lowerupper': CLIP_BOTH, 'lower': CLIP_LO, 'upper': CLIP_HI}.get(which)
+        seen.add(which)
+        run.ob('MAP.table', fn, 'decision table for bounds present: %s' % (which or 'none'),
+               want is not None and t == want, loc(e), 'under %s got %s' % (sorted(gc), dtree.show(t)))
+        _stateless(run, fn, e, i + 1)
+    run.ob('MAP.table', fn, 'one closure per bound combination', seen == {'lowerupper', 'lower', 'upper'},
+           fn.loc(), 'combinations %s' % sorted(seen))
     # delegations
-    for name, target, pred in [('MapValidBasic::fill', 'fill_mask', 'IsNone::is_none'),
-                               ('MapValidBasic::ffill', 'ffill_mask', 'IsNone::is_none'),
-                               ('MapValidBasic::bfill', 'bfill_mask', 'IsNone::is_none')]:
+    for name, target in [('MapValidBasic::fill', 'fill_mask'), ('MapValidBasic::ffill', 'ffill_mask'),
+                         ('MapValidBasic::bfill', 'bfill_mask')]:
         fn = F.one(name)
-        body = peel(fn.hir)
-        if body.get('k') == 'Block' and 'expr' in body and not body.get('stmts'):
-            body = peel(body['expr'])
-        ok = body.get('k') == 'MethodCall' and body['method'] == target and \
-            src(peel(body['ch'][0])) == 'self' and src(peel(body['ch'][1])).endswith('is_none') and \
-            src(peel(body['ch'][2])) == 'value'
-        run.ob('MAP.delegate', fn, '-> %s(is_none, value)' % target, ok, fn.loc(), src(body)[:100])
+        leaf = N.one_leaf(N.tbl(fn))
+        ok = leaf == 'self.%s(IsNone::is_none, value)' % target
+        calls = [x for x in walk(fn.hir) if x.get('k') == 'MethodCall' and x['method'] == target]
+        ok = ok and len(calls) == 1 and callee_is(calls[0], 'MapValidBasic::' + target)
+        run.ob('MAP.delegate', fn, '-> %s(is_none, value)' % target, ok, fn.loc(), str(leaf)[:100])
     for name, m in [('tea_map::MapBasic::abs', 'Number::abs'), ('MapValidBasic::vabs', 'IsNone::vabs')]:
         fn = F.one(name)
         got = closure_tables(fn)
         ok = len(got) == 1 and any(callee_is(x, m) for x in walk(got[0][0])) and \
-            got[0][1] == T(([], 'v.%s()' % m.split('::')[1], []))
+            got[0][1] == T(([], 'a0.%s()' % m.split('::')[1], []))
         run.ob('MAP.delegate', fn, 'element-wise %s' % m, ok, fn.loc(),
                dtree.show(got[0][1]) if got else 'no closure')
     # bfill pipeline: self.rev().map(f).collect…().into_iter().rev()
     fn = F.one('MapValidBasic::bfill_mask')
-    tail = peel(fn.hir.get('expr', {}))
-    chain = []
-    x = tail
-    while x.get('k') == 'MethodCall':
-        chain.append(x['method'])
-        x = peel(x['ch'][0])
-    chain.reverse()
-    ok = src(x) == 'self' and chain[:2] == ['rev', 'map'] and chain[-1] == 'rev' and \
-        any(c.startswith('collect') for c in chain[2:-1])
-    run.ob('MAP.bfill-order', fn, 'pipeline', ok, loc(tail), 'self.' + '.'.join(chain))
+    leaf = N.one_leaf(dtree.Table((cs, l, ()) for cs, l, ef in N.tbl(fn))) or ''
+    defs = [e_ for cs, l, ef in N.tbl(fn) for e_ in ef]
+    full = leaf
+    for e_ in defs:
+        mm = re.match(r'(v\d+) := (.*)$', e_)
+        if mm and not mm.group(2).startswith(('NULL', 'Some(')):
+            full = re.sub(r'\b%s\b' % mm.group(1), lambda _m: mm.group(2), full)
+    ok = bool(re.fullmatch(r'self\.rev\(\)\.map\(\|a0\| .*\)\.collect\w*\(\)\.into_iter\(\)\.rev\(\)', full))
+    run.ob('MAP.bfill-order', fn, 'pipeline', ok, fn.loc(), full[:40] + ' … ' + full[-60:])
+
+
+def _stateless(run, fn, e, i):
+    caps = {c['local'] for c in e.get('captures', [])}
+    muts = [src(x) for x in walk(e['ch'][0]) if x.get('k') in ('Assign', 'AssignOp')
+            and peel(x['ch'][0]).get('local') in caps]
+    mb = [c['place'] for c in e.get('captures', []) if 'Mut' in c.get('by', '')]
+    run.ob('MAP.stateless', fn, 'closure #%d state' % i, not muts and not mb,
+           loc(e), 'mutated captures: %s' % (muts + mb or 'none'))
